@@ -239,7 +239,7 @@ def direct_reads(body):
     out = []
     for n in walk(body):
         if n.get('k') in ('mem',) or (n.get('k') == 'opcall' and n.get('op') == '[]') or n.get('k') == 'index' \
-                or (n.get('k') == 'bin' and n.get('op') == '->*'):
+                or (n.get('k') == 'bin' and n.get('op') in ('->*', '.*')):
             if id(n) in pure_targets:
                 continue
             p = field_path(n)
